@@ -735,6 +735,10 @@ func (fc *FnCtx) fieldAssignAnchors(x *ssa.Store, fa *ssa.FieldAddr) {
 		sc := fc.funcScope(fc.env, fc.entryEnv, nil)
 		sc.pos = x.Pos()
 		sc.mode = "site"
+		// $v: the value being stored
+		if vv := fc.value(x.Val); vv.P == nil && vv.isT {
+			sc.extra = map[string]specVal{"$v": {t: vv.T, ty: x.Val.Type()}}
+		}
 		if aa.Set != nil {
 			t, _ := sc.tr(aa.Set.E)
 			if _, ok := fc.ghostTypes[aa.Set.Name]; !ok {
